@@ -394,6 +394,14 @@ func c12Gen(t *rapid.T, cx *h.Ctx) C12Case {
 	} else if rapid.Bool().Draw(t, "second") {
 		c.G2 = gen.Structure(t, gen.Opts{XY: xy, ZM: gen.AnyFloat, CT: 0, ValidShapes: true})
 	}
+	// repeated consecutive vertices (also the last one of a line): valid, and must not cost the union any extent
+	if valid && rapid.IntRange(0, 2).Draw(t, "dups") == 0 {
+		seeds := rapid.SliceOfN(rapid.IntRange(0, 40), 1, 6).Draw(t, "dupseeds")
+		c.G = dupVertices(c.G, seeds)
+		if len(c.G2.T) > 0 {
+			c.G2 = dupVertices(c.G2, seeds)
+		}
+	}
 	c.Perm = rapid.SliceOfN(rapid.IntRange(0, 5), 1, 4).Draw(t, "perm")
 	return c
 }
